@@ -144,6 +144,8 @@ InitView1 ==
 (* Proposals a replica can receive: sent by a correct leader, or anything a faulty leader can build. *)
 ByzProposals(J) ==
     {ProposalMsg(Leader(JView(j)), j, p) : j \in {x \in J : Leader(JView(x)) \in Faulty}, p \in Payloads \cup {"none"}}
+    \cup (IF Weaken = "no_leader_check"     \* only then does a proposal by a non-leader matter
+          THEN {ProposalMsg(b, j, p) : b \in Faulty, j \in J, p \in Payloads \cup {"none"}} ELSE {})
 
 MsgView(m) == IF m.t \in {"proposal", "newview"} THEN JView(m.j) ELSE IF m.t = "commit" THEN m.vote.view ELSE m.view
 Step(r, m, k, name) ==
@@ -274,4 +276,5 @@ NoBlockCommitted == \A r \in Correct : Len(store[r]) = 0
 NoTwoBlocks == \A r \in Correct : Len(store[r]) < 2
 NoReproposal == \A m \in net : m.t = "proposal" => Implied(m.j).pay = "none"
 NoCrashLosingMessages == ncrash = 0
+NoTwoBlocksAfterCrash == ncrash = 0 \/ \A r \in Correct : Len(store[r]) < 2
 =============================================================================
